@@ -21,26 +21,180 @@ def nameOf (a : Src.TzAsciiStr) : List Nat := (a.bytes.drop 1).take (a.bytes.hea
 def lttOf (x : Src.LocalTimeTypeSrc) : LocalTimeType :=
   { utOffset := x.utOffset, isDst := x.isDst, name := x.timeZoneDesignation.map nameOf }
 
+/-! ### the copy loop of `TzAsciiStr::new` -/
+
+/-- what the loop does to the buffer: `bytes[k + 1 + j] := rest[j]` -/
+def fillFrom (bytes : List Nat) (k : Nat) : List Nat → List Nat
+  | [] => bytes
+  | b :: bs => fillFrom (bytes.set (k + 1) b) (k + 1) bs
+
+/-- what `TzAsciiStr::new` does with the result of its loop -/
+def nameOut : (List Nat × Int) ⊕ Except LocalTimeTypeError Src.TzAsciiStr → Except LocalTimeTypeError Src.TzAsciiStr
+  | .inr r => r
+  | .inl (bytes, _) => .ok { bytes := bytes }
+
+theorem idx_append_length (pre : List Nat) (b : Nat) (rest : List Nat) :
+    Src.idx (pre ++ b :: rest) (pre.length : Int) = b := by
+  unfold Src.idx
+  rw [Int.toNat_natCast]
+  simp
+
+theorem name_loop (input : List Nat)
+    (f : List Nat × Int → Src.Step (List Nat × Int) (Except LocalTimeTypeError Src.TzAsciiStr))
+    (hf : ∀ bytes i, f (bytes, i) =
+      if decide (i < (input.length : Int)) then
+        (if isDesignationChar (Src.idx input i) then
+          Src.Step.next (List.set bytes (Int.toNat (i + 1)) (Src.idx input i), i + 1)
+        else Src.Step.ret (Except.error LocalTimeTypeError.invalidTimeZoneDesignationChar))
+      else Src.Step.stop (bytes, i)) :
+    ∀ (fuel : Nat) (pre rest bytes : List Nat), input = pre ++ rest → rest.length + 1 ≤ fuel →
+      nameOut (Src.loopR fuel f (bytes, (pre.length : Int))) =
+        if allDesignationChars rest then .ok { bytes := fillFrom bytes pre.length rest }
+        else .error LocalTimeTypeError.invalidTimeZoneDesignationChar := by
+  intro fuel
+  induction fuel with
+  | zero => intro pre rest bytes _ h; omega
+  | succ fuel ih =>
+    intro pre rest bytes hin hfu
+    simp only [Src.loopR, hf]
+    cases rest with
+    | nil =>
+      have hlen : ¬ ((pre.length : Int) < (input.length : Int)) := by
+        rw [hin]; simp
+      simp only [hlen, decide_false, Bool.false_eq_true, if_false, nameOut, allDesignationChars, fillFrom, if_true]
+    | cons b rest =>
+      have hlen : ((pre.length : Int) < (input.length : Int)) := by
+        rw [hin]; simp; omega
+      have hb : Src.idx input (pre.length : Int) = b := by rw [hin]; exact idx_append_length pre b rest
+      simp only [hlen, decide_true, if_true, hb, allDesignationChars]
+      by_cases hc : isDesignationChar b = true
+      · simp only [hc, if_true]
+        have hk : ((pre.length : Int) + 1) = ((pre ++ [b]).length : Int) := by simp
+        have hn : Int.toNat ((pre.length : Int) + 1) = pre.length + 1 := by omega
+        rw [hn, hk]
+        have := ih (pre ++ [b]) rest (List.set bytes (pre.length + 1) b) (by rw [hin]; simp)
+          (by simp at hfu; omega)
+        rw [this]
+        simp [fillFrom]
+      · simp only [hc, Bool.false_eq_true, if_false, nameOut]
+
+theorem fillFrom_replicate (n : Nat) : ∀ (rest pre : List Nat) (m : Nat), rest.length ≤ m →
+    fillFrom (n :: (pre ++ List.replicate m 0)) pre.length rest =
+      n :: (pre ++ rest ++ List.replicate (m - rest.length) 0) := by
+  intro rest
+  induction rest with
+  | nil => intro pre m _; simp [fillFrom]
+  | cons b rest ih =>
+    intro pre m hm
+    simp only [List.length_cons] at hm
+    obtain ⟨m', rfl⟩ : ∃ m', m = m' + 1 := ⟨m - 1, by omega⟩
+    have hset : (n :: (pre ++ List.replicate (m' + 1) 0)).set (pre.length + 1) b =
+        n :: ((pre ++ [b]) ++ List.replicate m' 0) := by
+      simp [List.replicate_succ]
+    have hl : pre.length + 1 = (pre ++ [b]).length := by simp
+    rw [fillFrom, hset, hl, ih (pre ++ [b]) m' (by omega)]
+    simp
+
+theorem tz_ascii_str_new_aux (input : List Nat) :
+    Src.TzAsciiStr.new input =
+      if !(decide (3 ≤ input.length) && decide (input.length ≤ 7)) then
+        .error LocalTimeTypeError.invalidTimeZoneDesignationLength
+      else if allDesignationChars input then
+        .ok { bytes := input.length :: (input ++ List.replicate (7 - input.length) 0) }
+      else .error LocalTimeTypeError.invalidTimeZoneDesignationChar := by
+  by_cases hlen : 3 ≤ input.length ∧ input.length ≤ 7
+  · unfold Src.TzAsciiStr.new
+    have h3 : (3 : Int) ≤ (input.length : Int) := by omega
+    have h7 : (input.length : Int) ≤ 7 := by omega
+    simp only [h3, h7, hlen.1, hlen.2, decide_true, Bool.and_true, Bool.not_true, Bool.false_eq_true, if_false]
+    show nameOut (Src.loopR _ _ _) = _
+    refine Eq.trans (name_loop input _ (fun bytes i => ?_) _ [] input _ rfl (by omega)) ?_
+    · dsimp only
+      generalize Src.idx input i = b
+      have hb : ∀ c : Bool, (if c = true then true else false) = c := by intro c; cases c <;> rfl
+      have hd : (decide (48 ≤ b) && decide (b ≤ 57) || decide (65 ≤ b) && decide (b ≤ 90) ||
+          decide (97 ≤ b) && decide (b ≤ 122) || decide (b = 43) || decide (b = 45)) = isDesignationChar b := by
+        rfl
+      rw [hb, hd]
+      cases isDesignationChar b <;> rfl
+    · have hw : (Src.wrap_u8 (input.length : Int)).toNat = input.length := by
+        rw [wrap_u8_id _ (by omega)]; exact Int.toNat_natCast _
+      have h0 : (List.replicate (Int.toNat 8) 0).set (Int.toNat 0) input.length =
+          input.length :: (([] : List Nat) ++ List.replicate 7 0) := rfl
+      rw [hw, h0, fillFrom_replicate input.length input [] 7 hlen.2]
+      rfl
+  · unfold Src.TzAsciiStr.new
+    have h : ¬ ((3 : Int) ≤ (input.length : Int) ∧ (input.length : Int) ≤ 7) := by omega
+    have h' : (decide ((3 : Int) ≤ (input.length : Int)) && decide ((input.length : Int) ≤ 7)) = false := by
+      simpa using h
+    have h'' : (decide (3 ≤ input.length) && decide (input.length ≤ 7)) = false := by
+      simpa using hlen
+    simp only [h', h'', Bool.not_false, if_true]
+
 /-- the buffer `TzAsciiStr::new` builds: the length, the bytes, zero padding up to 8 -/
 theorem tz_ascii_str_buffer (input : List Nat) (a : Src.TzAsciiStr) (h : Src.TzAsciiStr.new input = .ok a) :
     a.bytes = input.length :: (input ++ List.replicate (7 - input.length) 0) := by
-  sorry
+  rw [tz_ascii_str_new_aux] at h
+  split at h
+  · cases h
+  · split at h
+    · cases h; rfl
+    · cases h
+
+theorem nameOf_buffer (input : List Nat) (m : Nat) :
+    nameOf { bytes := input.length :: (input ++ List.replicate m 0) } = input := by
+  simp [nameOf]
 
 theorem tz_ascii_str_new_eq (input : List Nat) : (Src.TzAsciiStr.new input).map nameOf = TzAsciiStr.new input := by
-  sorry
+  rw [tz_ascii_str_new_aux]
+  unfold TzAsciiStr.new guardNameMinLen guardNameMaxLen
+  have hg : (decide ((3 : Int) ≤ (input.length : Int)) && decide ((input.length : Int) ≤ 7)) =
+      (decide (3 ≤ input.length) && decide (input.length ≤ 7)) := by
+    by_cases h3 : 3 ≤ input.length <;> by_cases h7 : input.length ≤ 7 <;>
+      simp [h3, h7] <;> omega
+  dsimp only
+  rw [hg]
+  cases (decide (3 ≤ input.length) && decide (input.length ≤ 7))
+  · rfl
+  · cases allDesignationChars input
+    · rfl
+    · simp only [Bool.not_true, Bool.false_eq_true, if_false, if_true, Except.map, nameOf_buffer]
 
 theorem ltt_new_eq (off : Int) (dst : Bool) (name : Option (List Nat)) :
     (Src.LocalTimeType.new off dst name).map lttOf = LocalTimeType.new off dst name := by
-  sorry
+  unfold Src.LocalTimeType.new LocalTimeType.new Model.i32Min
+  by_cases h : off = -2147483648
+  · simp only [h, decide_true, if_true]; rfl
+  · simp only [h, decide_false, Bool.false_eq_true, if_false]
+    cases name with
+    | none => rfl
+    | some n =>
+      dsimp only
+      rw [← tz_ascii_str_new_eq]
+      cases Src.TzAsciiStr.new n with
+      | error e => rfl
+      | ok a => rfl
 
 theorem ltt_with_ut_offset_eq (off : Int) : (Src.LocalTimeType.with_ut_offset off).map lttOf = LocalTimeType.withUtOffset off := by
-  sorry
+  unfold Src.LocalTimeType.with_ut_offset LocalTimeType.withUtOffset Model.i32Min
+  by_cases h : off = -2147483648
+  · simp only [h, decide_true, if_true]; rfl
+  · simp only [h, decide_false, Bool.false_eq_true, if_false]; rfl
 
 /-- two buffers built by `new` are equal exactly when the strings are: comparing the buffers (what
     `TzAsciiStr::equal` does through `u64::from_ne_bytes`) is comparing the designations -/
 theorem buffers_equal_iff_names_equal (i1 i2 : List Nat) (a b : Src.TzAsciiStr)
     (ha : Src.TzAsciiStr.new i1 = .ok a) (hb : Src.TzAsciiStr.new i2 = .ok b) :
     a.bytes = b.bytes ↔ i1 = i2 := by
-  sorry
+  constructor
+  · intro h
+    rw [tz_ascii_str_buffer i1 a ha, tz_ascii_str_buffer i2 b hb] at h
+    injection h with hl ht
+    exact (List.append_inj ht hl).1
+  · intro h
+    subst h
+    rw [ha] at hb
+    cases hb
+    rfl
 
 end TzVerif.Proofs.SrcEq
